@@ -38,6 +38,15 @@ CHECKS["C04"] = dict(level="model_checking", ref="DESIGN.md §4 C04, §9",
          "validated by TLC: exactly one exit/down with the right target and reason for a relation that holds, none otherwise.",
     note=RACE_NOTE, tech="TLA+ spec Relations + TLC; edge-cover plans replayed under the controlling scheduler; traces validated by TLC (Relations_Trace: Core conformance with drift detection, clauses over observations)")
 
+CHECKS["C06"] = dict(level="model_checking", ref="DESIGN.md §4 C06, §9",
+    text="TLA+ spec Registry (RegisterName = lookup, flag CAS, table insert, name assignment, re-check; Kill = state swap, table delete, name cleanup) "
+         "model-checked exhaustively for 2 processes x 2 names x 2-3 registrars x one Kill; an edge cover of each state graph is replayed on a real node and the "
+         "recorded executions are validated by TLC: one winner per name and per process, at quiescence a name resolves (probe message) to nobody or to a live "
+         "process that owns it - never to a terminated one. Identifier generators: the bit slicing of MakeRef is measured on the real node, its scaled design is "
+         "checked by TLC (spec IdGen), and 600k-1.2M references, thousands of pids and aliases are checked for repetition on the real node.",
+    note=RACE_NOTE + " Sequential registry histories (aliases, events, relations of a terminated requester) are not yet bound.",
+    tech="TLA+ specs Registry, IdGen + TLC; edge-cover plans replayed under the controlling scheduler; traces validated by TLC (Registry_Trace)")
+
 NOT_YET = {
 }
 
